@@ -1090,6 +1090,8 @@ def value_failure(d, textual):
         return None
     tvals = set(d["mvals"]) if "mvals" in d else None
     for p, k, a in text_values(d["load"]["ok"], textual):
+        if a == "":
+            continue  # the default of an attribute that was not assigned on this path (or an empty regex match)
         if isinstance(k, dict) and "lit" in k:
             if a not in k["lit"]:
                 return (f"value {a!r} at {p} (only ever assigned from the string literals {k['lit']}) is not the "
